@@ -3,7 +3,7 @@
 From Coq Require Import List NArith ZArith.
 From HS Require Import Quorum.QuorumModel Protocol.Core Protocol.Chained Protocol.ChainedExec Protocol.ChainedExecProofs.
 From HS Require Import Protocol.Fast Protocol.FastExec Protocol.FastExecProofs.
-From HS Require Protocol.Refine Protocol.RefineFast Protocol.Stack Protocol.Bridge Cert.CertModel Crypto.Symbolic Base.Prelude.
+From HS Require Protocol.Refine Protocol.RefineFast Protocol.RefineCommit Protocol.Stack Protocol.Bridge Cert.CertModel Crypto.Symbolic Base.Prelude.
 Import ListNotations.
 Open Scope N_scope.
 
@@ -302,6 +302,30 @@ Proof.
            leader s r f lk cur st p pr).
 Qed.
 Print Assumptions C01_voter_and_simple_rules_stack_refines_abstract_step.
+
+(* The commit walk: Committer.commitInner as modelled for C06 ([ExecModel.commit_walk], run against
+   the Go committer by the C06 correspondence check, with fetches from peers) returns, block for
+   block, the abstract [segment] that the abstract commit step appends to the ledger, whenever the
+   replica's store and what its peers serve are partial views of the global universe. *)
+Theorem C01_code_level_commit_walk_is_abstract_segment :
+  forall Uu remote fuel ch b cv ch' l x lx,
+    RefineCommit.store_view (RefineCommit.E.blocks ch) Uu -> RefineCommit.store_view remote Uu ->
+    RefineCommit.same b x ->
+    RefineCommit.E.commit_walk fuel remote ch b cv = (ch', Prelude.Ok l) ->
+    segment Uu x cv lx ->
+    Forall2 RefineCommit.same l lx.
+Proof. exact RefineCommit.commit_walk_matches_abstract_commit. Qed.
+Print Assumptions C01_code_level_commit_walk_is_abstract_segment.
+
+Theorem C01_code_level_commit_walk_segment_exists :
+  forall Uu remote fuel ch b cv ch' l x,
+    RefineCommit.store_view (RefineCommit.E.blocks ch) Uu -> RefineCommit.store_view remote Uu ->
+    RefineCommit.same b x ->
+    RefineCommit.E.commit_walk fuel remote ch b cv = (ch', Prelude.Ok l) ->
+    RefineCommit.store_view (RefineCommit.E.blocks ch') Uu /\
+    exists lx, segment Uu x cv lx /\ Forall2 RefineCommit.same l lx.
+Proof. exact RefineCommit.commit_walk_is_segment. Qed.
+Print Assumptions C01_code_level_commit_walk_segment_exists.
 
 (* "certified" is what VerifyQuorumCert establishes (C02's model) under signature
    unforgeability: every genuine vote signature of a member inside the certificate is a vote of
